@@ -111,3 +111,61 @@ def claimed_promise(ctx, db, rid):
         if started == 0 or refused == 0:
             bad = bad or ('start_promise lost its started/refused outcomes', trs[0] if trs else [])
         ctx.ob(rid, f, f['key'], bad is None, 'started iff claimed' + ('' if not bad else ' -- ' + bad[0]), desc=(bad[0] if bad else None), trace=fmt_trace(bad[1]) if bad else None)
+
+
+# ---------------------------------------------------------------------------------------------------------------------------------
+# "built on": the generic machinery a feature is made of.  A feature's property cannot hold when an invariant of the machinery it is
+# built on is broken (a queue's pop IS a future; a mutex request IS an awaiter pushed by the lock-free push; a released ownership travels in
+# a suspend point), so the rules that decide those invariants are claimed under the feature's property too - once, under an id that says so.
+# Rules the property already claims under a name of its own are skipped (same rule text = same rule).
+BUILT_ON = {
+    'C01': ('awaiter',), 'C02': ('future',), 'C03': ('future', 'awaiter'),
+    'C04': ('future', 'awaiter', 'suspend_point'), 'C05': ('suspend_point',),
+    'C07': ('awaiter', 'suspend_point'), 'C08': ('awaiter', 'suspend_point'),
+    'C09': ('future', 'awaiter', 'suspend_point'), 'C10': ('future', 'awaiter', 'suspend_point'),
+    'C11': ('future', 'awaiter', 'suspend_point'), 'C12': ('future', 'awaiter', 'suspend_point'),
+    'C13': ('future', 'awaiter', 'suspend_point'), 'C14': ('future', 'awaiter', 'suspend_point'),
+    'C15': ('awaiter', 'suspend_point'), 'C16': ('awaiter', 'suspend_point'),
+    'C17': ('future', 'awaiter', 'suspend_point'), 'C18': ('future', 'awaiter', 'suspend_point'),
+}
+
+
+def built_on(ctx, db, pid):
+    from . import C01, C02, C06
+    from .. import publish
+    from ..report import DuplicateRule
+    comps = BUILT_ON.get(pid, ())
+    items = []
+    if 'future' in comps:
+        items += [('future', 'claim-is-one-exchange', lambda r: C01.claim_rmw(ctx, db, r)),
+                  ('future', 'payload-before-ready', lambda r: C01.resolvers(ctx, db, r, r + '-verdict')),
+                  ('future', 'loser-leaves-no-trace', lambda r: C01.receivers(ctx, db, r)),
+                  ('future', 'abandoned-promise-resolves', lambda r: C01.dtor_and_assign(ctx, db, r)),
+                  ('future', 'born-resolved-is-ready', lambda r: C01.resolved_constructors(ctx, db, r)),
+                  ('future', 'has-value-forms-agree', lambda r: C01.has_value_agrees(ctx, db, r)),
+                  ('future', 'result-immutable', lambda r: C01.result_immutable(ctx, db, r)),
+                  ('future', 'ready-by-one-exchange', lambda r: C02.resolve_one_rmw(ctx, db, r)),
+                  ('future', 'walker-leaves-resumed-nodes-alone', lambda r: C02.walk(ctx, db, r)),
+                  ('future', 'result-visible-to-the-released', lambda r: atomic.check_roles(ctx, db, r, only_functions=C02.RESULT_VISIBILITY_FUNCTIONS, floor=8))]
+    if 'awaiter' in comps:
+        items += [('awaiter', 'late-registration-refused', lambda r: C02.subscribe_protocol(ctx, db, r)),
+                  ('awaiter', 'push-links-current-top', lambda r: C02.link_current(ctx, db, r)),
+                  ('awaiter', 'await-suspend-forms-agree', lambda r: C02.await_suspend_siblings(ctx, db, r)),
+                  ('awaiter', 'blocking-wait-iff-registered', lambda r: C02.sync_waits(ctx, db, r)),
+                  ('awaiter', 'complete-before-published', lambda r: C02.init_before_publish(ctx, db, publish.Summaries(db), r)),
+                  ('awaiter', 'registration-answer-used', lambda r: C02.result_used(ctx, db, r, C02.SUBSCRIBE_FAMILY))]
+    if 'suspend_point' in comps:
+        items += [('suspend-point', 'storage-typestate', lambda r: C06.typestate(ctx, db, r)),
+                  ('suspend-point', 'moved-from-is-empty', lambda r: C06.source_reset(ctx, db, r)),
+                  ('suspend-point', 'handles-consumed-once', lambda r: C06.consumers_clear(ctx, db, r)),
+                  ('suspend-point', 'awaiter-queued-once', lambda r: C06.self_inclusion(ctx, db, r)),
+                  ('suspend-point', 'collected-is-removed', lambda r: C06.collected_is_removed(ctx, db, r))]
+    for comp, name, fn in items:
+        rid = '%s.built-on-%s.%s' % (pid, comp, name)
+        ctx.dedupe = True
+        try:
+            fn(rid)
+        except DuplicateRule:
+            pass
+        finally:
+            ctx.dedupe = False
